@@ -132,6 +132,9 @@ func (st *Stats) Record(x *Execution) {
 	if x.HorizonHit {
 		add("hang", "execution exceeded the horizon of scheduling points (livelock or unbounded loop)")
 	}
+	if x.TimedOut {
+		add("stuck", "the execution did not finish in real time (watchdog): a thread is blocked in an operation outside the scheduler's control (a channel operation or select, I/O) and nothing that is under control can make progress")
+	}
 	for _, p := range x.Panics {
 		add("panic", "panic: "+firstLines(p, 12))
 	}
